@@ -1,4 +1,4 @@
 package block
 
-// preemptions per interleaving: quick 2, thorough 3
-var zzC13Preemptions = 2
+// preemptions per interleaving: quick 1, thorough 3
+var zzC13Preemptions = 1
